@@ -360,6 +360,8 @@ template<class GraphImpl>
 void DAGraphImpl<GraphImpl>::topologyHasChanged_() const
 {
   isValid_ = false;
+  // a new node, a removed node or a removed relation changes the number of nodes without father
+  isRooted_ = false;
 }
 
 
